@@ -114,7 +114,7 @@ func runC03(c *fw.Ctx) {
 			c03Check(c, tree, text, false)
 		})
 	})
-	n := c.N(6000, 300000)
+	n := c.N(6000, 3000000)
 	if c.Arch386 {
 		n /= 4
 	}
@@ -150,7 +150,7 @@ func runC03(c *fw.Ctx) {
 		})
 	})
 	// number spellings on their own (many per document)
-	c.Cases("numbers", c.N(300, 10000), false, func(i int, r *rng.R) {
+	c.Cases("numbers", c.N(300, 100000), false, func(i int, r *rng.R) {
 		tree := &spec.Spec{K: spec.List}
 		for j := 0; j < 40; j++ {
 			tree.L = append(tree.L, genDocNumber(r))
